@@ -249,7 +249,7 @@ def density(ctx):
 @part("history", quick=160, thorough=6000)
 def history(ctx):
     """One NoiseModel object: add errors, use it (translate / simulate), add more errors (new gate names, second error type on an
-    already noisy gate), use it again - with the same backend object and with fresh ones. After every stage the density matrix is
+    already noisy gate, repeated types that must be refused leaving the model unchanged), use it again - with the same backend object and with fresh ones. After every stage the density matrix is
     the reference evolution for the errors added so far."""
     import cirq
     from tangelo.linq import translate_circuit, get_backend
@@ -270,6 +270,15 @@ def history(ctx):
                 stages[0].append(e)
             else:
                 stages[draw(st.integers(1, nst - 1))].append(e)
+        # further registrations on an already noisy gate with a type it already carries (must be refused): placed at the end of
+        # the stage of the original registration or of a later one, i.e. typically after the gate received its other type too
+        for _ in range(draw(st.sampled_from([0, 1, 0, 2]))):
+            placed = [(k, e) for k, stg in enumerate(stages) for e in stg]
+            if not placed:
+                break
+            k0, (nm_, typ, _) = draw(st.sampled_from(placed))
+            par = draw(pauli_rates()) if typ == "pauli" else float(draw(depol_rates))
+            stages[draw(st.integers(k0, nst - 1))].append([nm_, typ, par])
         c["stages"] = stages
         return c
 
@@ -277,6 +286,7 @@ def history(ctx):
         n = S.circuit_width(case)
         nm = NoiseModel()
         be_same = None
+        pending_dup = None
         sofar, labs, late_effect = [], set(), False
         present = {g["n"] for g in case["gates"]}
         for k, stage in enumerate(case["stages"]):
@@ -286,6 +296,15 @@ def history(ctx):
                     labs.add("second-type-on-noisy-gate-after-use" if name in old else "new-gate-name-after-use")
                     if name in present and (sum(par) if typ == "pauli" else par) > 0:
                         late_effect = True
+                if any(x[0] == name and x[1] == typ for x in sofar):
+                    # one channel per (gate, type): a repeated registration is refused, the model stays as it was
+                    try:
+                        nm.add_quantum_error(name, typ, list(par) if typ == "pauli" else par)
+                    except ValueError:
+                        labs.add("repeated-type-refused-at-registration" + ("-after-use" if k > 0 else ""))
+                        continue
+                    pending_dup = [name, typ, par]
+                    continue
                 nm.add_quantum_error(name, typ, list(par) if typ == "pauli" else par)
                 sofar.append([name, typ, par])
             if k == 0 and not stage:
@@ -294,6 +313,15 @@ def history(ctx):
             ref = reference_density(case["gates"], n, tab)
             what = f"stage {k} ({len(sofar)} errors added so far)"
             sub = {"gates": case["gates"], "noise": sofar}
+            if pending_dup is not None:
+                # accepted at registration: has to be refused at the latest when the model is used
+                try:
+                    translate_circuit(S.build_circuit(case), "cirq", output_options={"noise_model": nm})
+                except ValueError:
+                    return True, labs | {"repeated-type-refused-at-translation"}
+                raise Fail(f"{what}: a second {pending_dup[1]!r} error on gate {pending_dup[0]!r} (which already carries one, registrations so far "
+                           f"{[x[:2] for x in sofar]}) was accepted by add_quantum_error and by translation",
+                           sig="history:repeated-type-accepted")
             cc = translate_circuit(S.build_circuit(case), "cirq", output_options={"noise_model": nm})
             rho = cirq.DensityMatrixSimulator(dtype=np.complex128).simulate(cc).final_density_matrix
             compare(rho, ref, sub, n, tab, None, "history:translate", f"{what}: translate_circuit with the staged model")
@@ -416,6 +444,56 @@ def malformed(ctx):
                    f"{case['via']}", sig="malformed-accepted:" + case["kind"])
 
     ctx.sweep("malformed", items, body)
+
+    # Registration sequences on ONE gate: a type may occur once per gate. Every registration whose type the gate already carries
+    # (adjacent or not) must be refused there - or, at the latest, the model must be refused at translation; registrations on another
+    # gate in between do not matter; the accepted registrations are the channels applied.
+    import itertools
+    import cirq
+    pars = {"pauli": [[0.25, 0.0, 0.0], [0.0, 0.1, 0.2], [0.05, 0.05, 0.05], [0.0, 0.0, 0.5]], "depol": [0.3, 0.15, 0.6, 0.05]}
+    seqs = []
+    for L in (2, 3, 4):
+        for types in itertools.product(["pauli", "depol"], repeat=L):
+            for g in ("H", "CNOT"):
+                for other in (False, True):
+                    seqs.append(dict(circuit, gate=g, other=other, seq=[[t, pars[t][i]] for i, t in enumerate(types)]))
+
+    def body_seq(case):
+        nm = NoiseModel()
+        accepted, slipped = [], None
+        for i, (typ, par) in enumerate(case["seq"]):
+            if case["other"] and i == 1:
+                nm.add_quantum_error("RZ", "depol", 0.2)
+            try:
+                nm.add_quantum_error(case["gate"], typ, list(par) if typ == "pauli" else par)
+            except ValueError:
+                if typ not in [a[1] for a in accepted]:
+                    raise Fail(f"registration {i} ({typ}) on gate {case['gate']} was refused although the gate carries only "
+                               f"{[a[1] for a in accepted]}", sig="sequence:first-of-its-type-refused")
+                continue
+            if typ in [a[1] for a in accepted]:
+                slipped = slipped or (i, typ)
+            else:
+                accepted.append([case["gate"], typ, par])
+        n = S.circuit_width(case)
+        try:
+            cc = translate_circuit(S.build_circuit(case), "cirq", output_options={"noise_model": nm})
+        except ValueError:
+            if slipped is None:
+                raise
+            return True, ("repeated-type-refused-at-translation",)
+        if slipped is not None:
+            raise Fail(f"registration sequence {[t for t, _ in case['seq']]} on gate {case['gate']}: registration {slipped[0]} repeats the type "
+                       f"{slipped[1]!r} and was accepted by add_quantum_error and by translation", sig="sequence:repeated-type-accepted")
+        noise = accepted + ([["RZ", "depol", 0.2]] if case["other"] and len(case["seq"]) > 1 else [])
+        rho = cirq.DensityMatrixSimulator(dtype=np.complex128).simulate(cc).final_density_matrix
+        tab = noise_table(noise)
+        compare(rho, reference_density(case["gates"], n, tab), {"gates": case["gates"], "noise": noise}, n, tab, None,
+                "sequence:density", f"registration sequence {[t for t, _ in case['seq']]} on {case['gate']}")
+        types = [t for t, _ in case["seq"]]
+        return True, ("no-repetition-accepted" if len(set(types)) == len(types) else "repeated-refused-at-registration:len=%d" % len(types),)
+
+    ctx.sweep("sequences", seqs, body_seq)
 
     # noise on a backend without noisy simulation, or without shots, must be refused
     def body_unsupported(case):
